@@ -166,6 +166,34 @@ Definition prm3_eqb (a : nat * regt * nat) (n : nat) (rt : regt) (z : nat) : boo
 Definition t_size (t : tcont) : nat :=
   match t with TSame b | TInv b | TTikh _ _ b => b_size b end.
 
+(* the rest of get_bs_cached, with _bs = b in place *)
+Definition compute (s1 : st) (b : bcont) (n deg : nat) (rt : regt) (z : nat) (fwd : bool)
+  : st * res mres :=
+  (* a matrix smaller than the data (possible after a failed save or with a
+     wrong-shape file) makes dot / solve_triangular / the Tikhonov sum raise
+     ValueError *)
+  let fin (st' : st) (r : mres) (sz : nat) :=
+    if sz <? n then (st', Raise EValue) else (st', Ret r) in
+  if fwd || regt_eqb rt RNonneg then fin s1 (MB (crop n b)) (b_size b)
+  else
+    let z' := match rt with RNone => 0 | _ => z end in
+    if z' =? 0 then
+      if tr_strength0 s1 then
+        match tr s1 with Some t => fin s1 (MT t n) (t_size t) | None => (s1, Raise EOther) end
+      else
+        let t := if deg =? 3 then TInv b else TSame b in
+        let pn := match bs_prm s1 with Some (pn, _) => pn | None => n end in
+        fin (with_tr s1 (Some t) (Some (pn, rt, 0))) (MT t n) (b_size b)
+    else
+      let recompute :=
+        if b_size b <? n then (s1, Raise EValue)   (* raises before _tr is assigned *)
+        else let t' := TTikh rt z' (crop n b) in
+             (with_tr s1 (Some t') (Some (n, rt, z')), Ret (MR t')) in
+      match tr s1, tr_prm s1 with
+      | Some t, Some p => if prm3_eqb p n rt z' then fin s1 (MR t) n else recompute
+      | _, _ => recompute
+      end.
+
 Definition step_call (s : st) (n deg : nat) (rt : regt) (z : nat) (fwd : bool)
            (bd : bdarg) (lastsz : nat) : st * res mres :=
   match ensure_bs s n deg bd lastsz with
@@ -173,31 +201,7 @@ Definition step_call (s : st) (n deg : nat) (rt : regt) (z : nat) (fwd : bool)
   | (s1, None) =>
       match bs s1 with
       | None => (s1, Raise EOther)                     (* unreachable *)
-      | Some b =>
-          (* a matrix smaller than the data (possible after a failed save or
-             with a wrong-shape file) makes dot / solve_triangular / the
-             Tikhonov sum raise ValueError *)
-          let fin (st' : st) (r : mres) (sz : nat) :=
-            if sz <? n then (st', Raise EValue) else (st', Ret r) in
-          if fwd || regt_eqb rt RNonneg then fin s1 (MB (crop n b)) (b_size b)
-          else
-            let z' := match rt with RNone => 0 | _ => z end in
-            if z' =? 0 then
-              if tr_strength0 s1 then
-                match tr s1 with Some t => fin s1 (MT t n) (t_size t) | None => (s1, Raise EOther) end
-              else
-                let t := if deg =? 3 then TInv b else TSame b in
-                let pn := match bs_prm s1 with Some (pn, _) => pn | None => n end in
-                fin (with_tr s1 (Some t) (Some (pn, rt, 0))) (MT t n) (b_size b)
-            else
-              let recompute :=
-                if b_size b <? n then (s1, Raise EValue)   (* raises before _tr is assigned *)
-                else let t' := TTikh rt z' (crop n b) in
-                     (with_tr s1 (Some t') (Some (n, rt, z')), Ret (MR t')) in
-              match tr s1, tr_prm s1 with
-              | Some t, Some p => if prm3_eqb p n rt z' then fin s1 (MR t) n else recompute
-              | _, _ => recompute
-              end
+      | Some b => compute s1 b n deg rt z fwd
       end
   end.
 
@@ -338,3 +342,59 @@ Fixpoint trace_hist (s : st) (h : list op) : list obs :=
   | [] => []
   | o :: r => let (s', res) := step s o in observe o s' res :: trace_hist s' r
   end.
+
+(* ---- hazards: the program paths behind the recorded findings ----------- *)
+Definition bcont_eqb (a b : bcont) : bool :=
+  (b_deg a =? b_deg b) && (b_gen a =? b_gen b) && (b_size a =? b_size b) && eqb (b_junk a) (b_junk b).
+
+Definition is_call (o : op) : bool :=
+  match o with Call _ _ _ _ _ _ _ => true | _ => false end.
+
+Definition uses_bad_dir (s : st) (bd : bdarg) : bool :=
+  match snd (resolve (gdir s) bd) with
+  | Some di => negb (dir_writable di)
+  | None => false
+  end.
+
+Definition hazard (s : st) (o : op) : bool :=
+  match o with
+  | Call n deg rt z fwd bd lastsz =>
+      (3 <? deg) ||
+      uses_bad_dir s bd ||                     (* a save would fail: _bs without _bs_prm *)
+      match bs_ok s n deg with
+      | Ret false =>
+          match snd (resolve (gdir s) bd) with
+          | Some di =>
+              ((deg =? 3) &&                   (* a larger cubic basis will be cropped *)
+               match best_file n deg (in_dir di (dk s)) None with
+               | Some (k, FGood _) => n <? fst k
+               | _ => false
+               end)
+          | None => false
+          end
+      | _ => false
+      end
+  | Seed d k c =>
+      match c with
+      | FShape => true
+      | FGood b => negb (bcont_eqb b (ideal (fst k) (snd k)))   (* not what a save writes *)
+      | FBad _ => false
+      end
+  | _ => false
+  end.
+
+Fixpoint no_hazard (s : st) (ops : list op) : bool :=
+  match ops with
+  | [] => true
+  | o :: r => negb (hazard s o) && no_hazard (fst (step s o)) r
+  end.
+
+(* every call of the history returns what a fresh process returns *)
+Fixpoint all_agree (s : st) (ops : list op) : bool :=
+  match ops with
+  | [] => true
+  | o :: r => let (s', res) := step s o in
+              (if is_call o then out_eqv res (fresh o) else true) && all_agree s' r
+  end.
+
+Definition last_result (ops : list op) (c : op) : res mres := snd (step (run init ops) c).
